@@ -148,6 +148,17 @@ Proof.
     cbn in H. injection H as -> H. f_equal. apply IH. exact H. }
   subst l. apply split_join_l. exact Hx.
 Qed.
+(* toUpperCase / toLowerCase on ANY valid UTF-8 receiver: every character is replaced by its image
+   (ASCII letters by the ASCII rule; the image of a non-ASCII character is Go's unicode.ToUpper /
+   ToLower of the code point — Unicode simple case mapping — a parameter of the model, measured);
+   on an ASCII receiver this is the byte-wise ASCII mapping whatever the table says *)
+Theorem case_map_ascii : forall f tbl s, is_ascii_str s = true -> case_map f tbl s = Some (smap f s).
+Proof. exact case_map_ascii_l. Qed.
+Theorem case_map_chars : forall f tbl s r, case_map f tbl s = Some r ->
+  exists ds, chars_mapped f tbl (utf8_chars s) ds = true /\ r = String.concat "" ds.
+Proof. intros f tbl s r H. exact (case_map_chars_l f tbl (utf8_chars s) r H). Qed.
+Print Assumptions case_map_ascii.
+Print Assumptions case_map_chars.
 Print Assumptions string_startsWith_iff.
 Print Assumptions string_endsWith_iff.
 Print Assumptions string_indexOf_leftmost.
